@@ -212,8 +212,8 @@ package route
 //@   requires treeWF()
 //@   ensures[C01,C09] result0 == specNext(t, trimLeftSlash(path), 0, header) && result2 == (result0 != nil)
 //@   ghost after matchNextSegment#0: params.raw = mapvals(params)
-//@   ensures[C02] result2 ==> forall k string :: result1[k] == ite(has(result1, k), decodeOnce(result1.raw[k]), result1.raw[k])
-//@   loop 0 invariant[C02] params != nil && (forall k string :: params[k] == ite(visited(k), decodeOnce(params.raw[k]), params.raw[k])) && (forall k string :: visited(k) ==> has(params, k))
+//@   ensures[C02,C12] result2 ==> forall k string :: result1[k] == ite(has(result1, k), decodeOnce(result1.raw[k]), result1.raw[k])
+//@   loop 0 invariant[C02,C12] params != nil && (forall k string :: params[k] == ite(visited(k), decodeOnce(params.raw[k]), params.raw[k])) && (forall k string :: visited(k) ==> has(params, k))
 //@   modifies Segment.str, Segment.strOnce.fired
 //@   ensures treeWF()
 //@   ensures result2 ==> result0 != nil && result1 != nil && fresh(result1)
@@ -223,8 +223,8 @@ package route
 // termination of the mutually recursive matcher: the cursor never moves left, and the three functions are ranked
 //@   decreases 3 * (len(path) - next)
 //@   props C07 C01 C02 C05
-//@   assert[C02] before matchSubtree#0: noSlash(path[next:next + i]) && path[next + i] == '/'
-//@   assert[C02] before matchLeaf#0: noSlash(path[next:])
+//@   assert[C02,C12] before matchSubtree#0: noSlash(path[next:next + i]) && path[next + i] == '/'
+//@   assert[C02,C12] before matchLeaf#0: noSlash(path[next:])
 //@   requires treeWF()
 //@   ensures[C01,C09] result0 == specNext(t, path, next, header) && result1 == (result0 != nil)
 //@   requires 0 <= next && next <= len(path) && params != nil
@@ -261,10 +261,10 @@ package route
 //@   ensures[C01,C09] result0 == specAll(t, path, next, header, 1) && result1 == (result0 != nil)
 //@   loop 0 invariant[C01,C09] specAll(t, path, old(next), header, 1) == specAll(t, path, next, header, captured)
 //@   requires 1 <= next && len(segment) <= next - 1 && segment == path[next - 1 - len(segment):next - 1] && path[next - 1] == '/'
-//@   ensures[C02] result1 ==> len(params[t.bind]) >= len(segment) && next - 1 - len(segment) + len(params[t.bind]) <= len(path) &&
+//@   ensures[C02,C12] result1 ==> len(params[t.bind]) >= len(segment) && next - 1 - len(segment) + len(params[t.bind]) <= len(path) &&
 //@       params[t.bind] == path[next - 1 - len(segment):next - 1 - len(segment) + len(params[t.bind])]
-//@   ensures[C02] forall k string :: !(result1 && k == t.bind) ==> true
-//@   loop 0 invariant[C02] 1 <= next && 1 <= captured && old(next) <= next && path[next - 1:next] == "/" && segment == path[old(next) - 1 - len(old(segment)):next - 1]
+//@   ensures[C02,C12] forall k string :: !(result1 && k == t.bind) ==> true
+//@   loop 0 invariant[C02,C12] 1 <= next && 1 <= captured && old(next) <= next && path[next - 1:next] == "/" && segment == path[old(next) - 1 - len(old(segment)):next - 1]
 //@   requires 0 <= next && next <= len(path) && params != nil
 //@   modifies params[*], Segment.str, Segment.strOnce.fired
 //@   ensures treeWF()
@@ -275,8 +275,8 @@ package route
 //@   props C07 C01 C09 C02 C05
 //@   requires treeWF()
 //@   ensures[C01,C09] result == ((l.capture <= 0 || l.capture >= countSlash(path[next - 1:]) + 1) && hdrOK(&l.baseLeaf, header))
-//@   ensures[C02] result ==> params[l.bind] == segment + "/" + path[next:]
-//@   ensures[C02] forall k string :: !(result && k == l.bind) ==> params[k] == old(params[k])
+//@   ensures[C02,C12] result ==> params[l.bind] == segment + "/" + path[next:]
+//@   ensures[C02,C12] forall k string :: !(result && k == l.bind) ==> params[k] == old(params[k])
 //@   requires 1 <= next && next <= len(path) && params != nil
 // the cursor stands right behind a slash (so that "segment + path[next-1:]" is the same text as "segment + "/" + path[next:]")
 //@   requires path[next - 1] == '/'
@@ -288,20 +288,20 @@ package route
 //@   requires treeWF() && params != nil
 //@   modifies params[*]
 //@   ensures[C01] result == (reLen(t.regexp, segment) == len(t.binds) + 1)
-//@   ensures[C02] result ==> forall i int :: 0 <= i && i < len(t.binds) ==> params[t.binds[i]] == reSub(t.regexp, segment, i + 1)
-//@   ensures[C02] forall k string :: !(result && inStrs(t.binds, k)) ==> params[k] == old(params[k])
-//@   loop 0 invariant[C02] forall i int :: 0 <= i && i <= rangeindex ==> params[t.binds[i]] == reSub(t.regexp, segment, i + 1)
-//@   loop 0 invariant[C02] forall k string :: !(exists i int :: 0 <= i && i <= rangeindex && t.binds[i] == k) ==> params[k] == old(params[k])
+//@   ensures[C02,C12] result ==> forall i int :: 0 <= i && i < len(t.binds) ==> params[t.binds[i]] == reSub(t.regexp, segment, i + 1)
+//@   ensures[C02,C12] forall k string :: !(result && inStrs(t.binds, k)) ==> params[k] == old(params[k])
+//@   loop 0 invariant[C02,C12] forall i int :: 0 <= i && i <= rangeindex ==> params[t.binds[i]] == reSub(t.regexp, segment, i + 1)
+//@   loop 0 invariant[C02,C12] forall k string :: !(exists i int :: 0 <= i && i <= rangeindex && t.binds[i] == k) ==> params[k] == old(params[k])
 
 //@ func (*regexLeaf).match
 //@   props C07 C01 C09 C02 C05
 //@   requires treeWF() && params != nil
 //@   modifies params[*]
 //@   ensures[C01,C09] result == (reLen(l.regexp, segment) >= len(l.binds) + 1 && hdrOK(&l.baseLeaf, header))
-//@   ensures[C02] result ==> forall i int :: 0 <= i && i < len(l.binds) ==> params[l.binds[i]] == reSub(l.regexp, segment, i + 1)
-//@   ensures[C02] forall k string :: !(result && inStrs(l.binds, k)) ==> params[k] == old(params[k])
-//@   loop 0 invariant[C02] forall i int :: 0 <= i && i <= rangeindex ==> params[l.binds[i]] == reSub(l.regexp, segment, i + 1)
-//@   loop 0 invariant[C02] forall k string :: !(exists i int :: 0 <= i && i <= rangeindex && l.binds[i] == k) ==> params[k] == old(params[k])
+//@   ensures[C02,C12] result ==> forall i int :: 0 <= i && i < len(l.binds) ==> params[l.binds[i]] == reSub(l.regexp, segment, i + 1)
+//@   ensures[C02,C12] forall k string :: !(result && inStrs(l.binds, k)) ==> params[k] == old(params[k])
+//@   loop 0 invariant[C02,C12] forall i int :: 0 <= i && i <= rangeindex ==> params[l.binds[i]] == reSub(l.regexp, segment, i + 1)
+//@   loop 0 invariant[C02,C12] forall k string :: !(exists i int :: 0 <= i && i <= rangeindex && l.binds[i] == k) ==> params[k] == old(params[k])
 
 //@ func (*HeaderMatcher).Match
 //@   props C07 C09 C05
@@ -346,7 +346,7 @@ package route
 //@   props C08 C02
 //@   requires treeWF() && (parent == nil || (isTree(parent) && bareOK(parent)))
 //@   ensures result != nil && fresh(result)
-//@   ensures[C08,C02] forall s string :: has(result, s) <==> (parent != nil && nodeOf(parent).upBinds[s])
+//@   ensures[C08,C02,C12] forall s string :: has(result, s) <==> (parent != nil && nodeOf(parent).upBinds[s])
 // (instances of the tree invariant for the node just visited, stated once so that the step to its parent goes through)
 //@   assert before getParent#0: dyn(ancestor) == type(*placeholderTree) ==> bindsOne(nodeOf(ancestor), ancestor.(*placeholderTree).bind)
 //@   assert before getParent#0: dyn(ancestor) == type(*matchAllTree) ==> bindsOne(nodeOf(ancestor), ancestor.(*matchAllTree).bind)
@@ -354,14 +354,14 @@ package route
 //@   assert before getParent#0: dyn(ancestor) == type(*regexTree) ==> bindsRegex(ancestor.(*regexTree))
 //@   assert before getParent#0: dyn(ancestor) == type(*baseTree) ==> bindsPlain(nodeOf(ancestor))
 //@   loop 0 invariant treeWF() && (ancestor == nil || (isTree(ancestor) && bareOK(ancestor))) && bindSet != nil && fresh(bindSet)
-//@   loop 0 invariant[C08,C02] forall s string :: (parent != nil && nodeOf(parent).upBinds[s]) <==> (has(bindSet, s) || (ancestor != nil && nodeOf(ancestor).upBinds[s]))
+//@   loop 0 invariant[C08,C02,C12] forall s string :: (parent != nil && nodeOf(parent).upBinds[s]) <==> (has(bindSet, s) || (ancestor != nil && nodeOf(ancestor).upBinds[s]))
 //@   loop 1 invariant treeWF() && isTree(ancestor) && bareOK(ancestor) && bindSet != nil && fresh(bindSet)
-//@   loop 1 invariant[C08,C02] (dyn(ancestor) == type(*placeholderTree) && rangeindex >= 0 ==> has(bindSet, ancestor.(*placeholderTree).bind)) &&
+//@   loop 1 invariant[C08,C02,C12] (dyn(ancestor) == type(*placeholderTree) && rangeindex >= 0 ==> has(bindSet, ancestor.(*placeholderTree).bind)) &&
 //@       (dyn(ancestor) == type(*matchAllTree) && rangeindex >= 0 ==> has(bindSet, ancestor.(*matchAllTree).bind)) &&
 //@       (dyn(ancestor) == type(*regexTree) ==> forall k int :: 0 <= k && k <= rangeindex ==> has(bindSet, ancestor.(*regexTree).binds[k]))
-//@   loop 1 invariant[C08,C02] forall s string :: has(bindSet, s) ==> (has(pre(bindSet), s) || nodeOf(ancestor).upBinds[s])
-//@   loop 1 invariant[C08,C02] forall s string :: has(pre(bindSet), s) ==> has(bindSet, s)
-//@   loop 1 invariant[C08,C02] forall s string :: (parent != nil && nodeOf(parent).upBinds[s]) <==> (has(pre(bindSet), s) || nodeOf(ancestor).upBinds[s])
+//@   loop 1 invariant[C08,C02,C12] forall s string :: has(bindSet, s) ==> (has(pre(bindSet), s) || nodeOf(ancestor).upBinds[s])
+//@   loop 1 invariant[C08,C02,C12] forall s string :: has(pre(bindSet), s) ==> has(bindSet, s)
+//@   loop 1 invariant[C08,C02,C12] forall s string :: (parent != nil && nodeOf(parent).upBinds[s]) <==> (has(pre(bindSet), s) || nodeOf(ancestor).upBinds[s])
 
 // nonCapturing is a pure function of its argument (its result is what the regexp facts below speak about).
 //@ func nonCapturing
@@ -386,9 +386,9 @@ package route
 //@ func constructMatchStyleRegex
 //@   props C08 C02 C01
 //@   requires s != nil
-//@   assert[C02,C01] before String#0: buf.content == reElems(s, len(s.Elements)) + "$"
-//@   loop 0 invariant[C02,C01] buf.content == reElems(s, rangeindex + 1)
-//@   loop 1 invariant[C02,C01] buf.content == reElems(s, rangeindex#0) + reParams(e.BindParameters, rangeindex#1 + 1)
+//@   assert[C02,C01,C12] before String#0: buf.content == reElems(s, len(s.Elements)) + "$"
+//@   loop 0 invariant[C02,C01,C12] buf.content == reElems(s, rangeindex + 1)
+//@   loop 1 invariant[C02,C01,C12] buf.content == reElems(s, rangeindex#0) + reParams(e.BindParameters, rangeindex#1 + 1)
 //@   ensures[C08] result2 == nil ==> elemsValid(s, len(s.Elements))
 //@   loop 0 invariant elemsValid(s, rangeindex + 1)
 //@   loop 1 invariant elemsValid(s, rangeindex#0) && e == s.Elements[rangeindex#0] && e.Ident == nil && e.BindIdent == nil && e.BindParameters != nil && bpValid(e.BindParameters, rangeindex#1 + 1)
@@ -408,8 +408,8 @@ package route
 //@   loop 0 invariant treeWF() && parentBindSet != nil && fresh(parentBindSet)
 //@   loop 0 invariant forall a int, b int :: 0 <= a && a < b && b <= rangeindex ==> binds[a] != binds[b]
 //@   loop 0 invariant forall a int :: 0 <= a && a <= rangeindex ==> has(parentBindSet, binds[a])
-//@   loop 0 invariant[C08,C02] forall a int :: 0 <= a && a <= rangeindex ==> !pre(has(parentBindSet, binds[a]))
-//@   loop 0 invariant[C08,C02] forall t string :: pre(has(parentBindSet, t)) ==> has(parentBindSet, t)
+//@   loop 0 invariant[C08,C02,C12] forall a int :: 0 <= a && a <= rangeindex ==> !pre(has(parentBindSet, binds[a]))
+//@   loop 0 invariant[C08,C02,C12] forall t string :: pre(has(parentBindSet, t)) ==> has(parentBindSet, t)
 
 // some ancestor (or the tree itself) is a match-all subtree
 //@ define allAnc(t Tree) bool = t != nil && (style(t) == 4 || allAnc(nodeOf(t).parent))
@@ -429,11 +429,11 @@ package route
 //@   loop 1 invariant forall a int, b int :: 0 <= a && a < b && b <= rangeindex ==> binds[a] != binds[b]
 //@   loop 1 invariant forall a int :: 0 <= a && a <= rangeindex ==> has(parentBindSet, binds[a])
 // the set grows by the segment's own binds only, none of which an ancestor defines; scratchIdx remembers where each came from
-//@   loop 1 invariant[C08,C02] forall t string :: pre(has(parentBindSet, t)) ==> has(parentBindSet, t)
-//@   loop 1 invariant[C08,C02] forall a int :: 0 <= a && a <= rangeindex ==> !pre(has(parentBindSet, binds[a]))
-//@   loop 1 invariant[C08,C02] forall t string :: has(parentBindSet, t) && !pre(has(parentBindSet, t)) ==> 0 <= s.scratchIdx[t]
-//@   loop 1 invariant[C08,C02] forall t string :: has(parentBindSet, t) && !pre(has(parentBindSet, t)) ==> s.scratchIdx[t] <= rangeindex
-//@   loop 1 invariant[C08,C02] forall t string :: has(parentBindSet, t) && !pre(has(parentBindSet, t)) ==> binds[s.scratchIdx[t]] == t
+//@   loop 1 invariant[C08,C02,C12] forall t string :: pre(has(parentBindSet, t)) ==> has(parentBindSet, t)
+//@   loop 1 invariant[C08,C02,C12] forall a int :: 0 <= a && a <= rangeindex ==> !pre(has(parentBindSet, binds[a]))
+//@   loop 1 invariant[C08,C02,C12] forall t string :: has(parentBindSet, t) && !pre(has(parentBindSet, t)) ==> 0 <= s.scratchIdx[t]
+//@   loop 1 invariant[C08,C02,C12] forall t string :: has(parentBindSet, t) && !pre(has(parentBindSet, t)) ==> s.scratchIdx[t] <= rangeindex
+//@   loop 1 invariant[C08,C02,C12] forall t string :: has(parentBindSet, t) && !pre(has(parentBindSet, t)) ==> binds[s.scratchIdx[t]] == t
 //@   ghost before mapupdate#0: s.scratchIdx[binds[rangeindex]] = rangeindex
 //@   ghost before exit: nodeOf(result0).upBinds = ite(result1 != nil, nodeOf(result0).upBinds,
 //@       ite(dyn(result0) == type(*staticTree), nodeOf(parent).upBinds,
@@ -445,6 +445,7 @@ package route
 //@ define routeWF(r *Route) bool = r != nil && len(r.Segments) >= 1 && (forall k int :: 0 <= k && k < len(r.Segments) ==> r.Segments[k] != nil)
 
 //@ func addLeaf
+//@   partial-anchors
 //@   props C08 C01
 // a failed registration leaves every list of the tree as it was (nothing dangling gets in the way of a later registration)
 //@   ensures[C08] result1 != nil ==> forall n *baseTree :: old(live(n)) ==> n.subtrees == old(n.subtrees) && n.leaves == old(n.leaves)
@@ -469,6 +470,7 @@ package route
 //@   loop 1 invariant treeWF() && 0 <= i && i <= len(leaves)
 
 //@ func addSubtree
+//@   partial-anchors
 //@   props C08 C01
 // a failed registration leaves every list of the tree as it was (nothing dangling gets in the way of a later registration)
 //@   ensures[C08] result1 != nil ==> forall n *baseTree :: old(live(n)) ==> n.subtrees == old(n.subtrees) && n.leaves == old(n.leaves)
